@@ -67,6 +67,25 @@ theorem halt_before_effects (mode : Mode) (portable : Bool) (eps : Endpoints)
         · exact ht.1 h
         · exact ht.2 h
 
+/-- `halt_on_one_sided_emptying`: if the ancestor root is a directory with at
+least two entries, both scanned roots are directories and exactly one of them
+is empty, the cycle halts (with `HaltedOnRootEmptied`) before any endpoint call,
+in every mode and permissions mode and whatever the endpoints would answer. -/
+theorem halt_on_one_sided_emptying (mode : Mode) (portable : Bool) (eps : Endpoints)
+    (A : Option Entry) (α β : Scan)
+    (hA : isKind A .directory = true) (h2 : 2 ≤ (contents A).length)
+    (hα : isKind α.content .directory = true) (hβ : isKind β.content .directory = true)
+    (hone : (contents α.content = [] ∧ contents β.content ≠ []) ∨
+            (contents α.content ≠ [] ∧ contents β.content = [])) :
+    (cycle mode portable eps A α β).outcome = .halted .rootEmptied ∧
+      (cycle mode portable eps A α β).events = [] ∧
+      (cycle mode portable eps A α β).ancestor = A := by
+  have he : oneEndpointEmptiedRoot A (propagateStep portable A α β).1 (propagateStep portable A α β).2 = true := by
+    rw [emptied_check_ignores_propagation]
+    exact (emptied_root_spec A α.content β.content).mpr ⟨hA, hα, hβ, h2, hone⟩
+  unfold cycle
+  simp [he]
+
 /-- Conversely, a halted cycle is caused by exactly one of the three checks. -/
 theorem halt_only_for_safety (mode : Mode) (portable : Bool) (eps : Endpoints)
     (A : Option Entry) (α β : Scan) (h : Halt)
